@@ -186,4 +186,81 @@ theorem delStrGo_spec (idx : Nat) : ∀ (ts : List Tok) (w : Nat) (acc : List Ch
       refine ⟨t :: pre, u, post, by rw [e1]; rfl, e2, by simp [fullStrings, hfs] at e3 ⊢; omega, ?_⟩
       rw [e4]; simp [concat, List.append_assoc]
 
+/-! ### shorten_string -/
+
+/-- characters between the quotes of all string tokens -/
+def stringChars (ts : List Tok) : Nat := ((ts.filter (fun t => t.kind = .string)).map (fun t => t.str.length - 2)).foldr (· + ·) 0
+
+theorem shortenGo_done : ∀ (ts : List Tok) (idx : Nat) (acc : List Char), shortenGo ts idx true acc = (true, acc ++ concat ts) := by
+  intro ts
+  induction ts with
+  | nil => intros; simp [shortenGo, concat]
+  | cons t ts ih => intro idx acc; simp [shortenGo, ih, concat, List.append_assoc]
+
+/-- `shorten_string`: OK exactly when `idx` addresses a character inside the quotes of some string literal (counting
+    through all of them); then the output is one character shorter than the input; otherwise the output is the input -/
+theorem shortenGo_spec : ∀ (ts : List Tok) (idx : Nat) (acc : List Char),
+    ((shortenGo ts idx false acc).1 = true ↔ idx < stringChars ts) ∧
+    ((shortenGo ts idx false acc).1 = false → (shortenGo ts idx false acc).2 = acc ++ concat ts) ∧
+    ((shortenGo ts idx false acc).1 = true → (shortenGo ts idx false acc).2.length + 1 = acc.length + (concat ts).length) := by
+  intro ts
+  induction ts with
+  | nil => intro idx acc; simp [shortenGo, stringChars, concat]
+  | cons t ts ih =>
+    intro idx acc
+    simp only [shortenGo, Bool.not_false, Bool.true_and]
+    by_cases hk : t.kind = .string
+    · have hsc : stringChars (t :: ts) = (t.str.length - 2) + stringChars ts := by simp [stringChars, hk]
+      simp only [hk, decide_true, if_true]
+      by_cases hge : idx ≥ t.str.length - 2
+      · simp only [hge, if_true]
+        obtain ⟨i1, i2, i3⟩ := ih (idx - (t.str.length - 2)) (acc ++ t.str)
+        refine ⟨by rw [i1, hsc]; omega, fun hm => by rw [i2 hm]; simp [concat, List.append_assoc], fun hm => ?_⟩
+        have := i3 hm
+        simp [concat, List.length_append] at this ⊢
+        omega
+      · simp only [hge, if_false]
+        rw [shortenGo_done]
+        refine ⟨by simp [hsc]; omega, by simp, fun _ => ?_⟩
+        simp [concat, List.length_append, List.length_take, List.length_drop]
+        omega
+    · have hsc : stringChars (t :: ts) = stringChars ts := by simp [stringChars, hk]
+      simp only [hk, decide_false, Bool.false_eq_true, if_false]
+      obtain ⟨i1, i2, i3⟩ := ih idx (acc ++ t.str)
+      refine ⟨by rw [i1, hsc], fun hm => by rw [i2 hm]; simp [concat, List.append_assoc], fun hm => ?_⟩
+      have := i3 hm
+      simp [concat, List.length_append] at this ⊢
+      omega
+
+/-! ### x_string: the output always has the length of the input -/
+
+theorem xChars_length (idx : Nat) : ∀ (cs : List Char) (which : Nat) (matched : Bool) (acc : List Char),
+    (xChars idx cs which matched acc).2.2.length = acc.length + cs.length := by
+  intro cs
+  induction cs with
+  | nil => intros; simp [xChars]
+  | cons c cs ih =>
+    intro which matched acc
+    simp only [xChars]
+    repeat' split
+    all_goals (rw [ih]; simp [List.length_append]; omega)
+
+theorem xStrGo_length (idx : Nat) : ∀ (ts : List Tok) (which : Nat) (matched : Bool) (acc : List Char),
+    (xStrGo idx ts which matched acc).2.length = acc.length + (concat ts).length := by
+  intro ts
+  induction ts with
+  | nil => intros; simp [xStrGo, concat]
+  | cons t ts ih =>
+    intro which matched acc
+    simp only [xStrGo]
+    split
+    · have hx := xChars_length idx t.str which matched []
+      generalize xChars idx t.str which matched [] = r at hx ⊢
+      obtain ⟨w, m, s⟩ := r
+      simp only at hx ⊢
+      rw [ih]
+      simp [concat, List.length_append] at hx ⊢
+      omega
+    · rw [ih]; simp [concat, List.length_append]; omega
+
 end Cvise.Clex
